@@ -7,5 +7,5 @@ KindsDef == {K("char", 1, 1), K("uchar", 1, 1), K("bool", 1, 1), K("short", 2, 2
              K("int", 2, 2), K("uint", 2, 2), K("long", 4, 4), K("ulong", 4, 4), K("llong", 8, 8),
              K("float", 4, 4), K("double", 8, 8), K("enum", 4, 4), K("ptr", 2, 2), K("fnptr", 2, 2),
              K("carr3", 3, 1), K("iarr2", 4, 2), K("larr2", 8, 4), K("parr2", 4, 2), K("carr2x2", 4, 1), K("iarr2x2", 8, 2), K("larr2x2", 16, 4),
-             K("inner", 8, 4)}
+             K("inner", 8, 4), K("innerp", 6, 2)}
 =============================================================================
